@@ -275,6 +275,42 @@ def tag_meta(l, o):
 def impl_any(line):
     return impl_c03.handle(line) if line.split(" ")[0] in ("meta", "repeat") else impl_classify.handle(line)
 
+# ---- the same generators through every constructor and argument type (str list, object list, collection, padded or not,
+# objects assembled in place, the generator function itself): one expansion, one algebra
+def present_lines(rng, tier):
+    out = []
+    for _ in range(600 if tier == "thorough" else 150):
+        k = rng.randint(1, 3)
+        gens = [G.rs(rng, rng.randint(1, 3)) for _ in range(k)]
+        if rng.random() < 0.5:
+            gens = [g.rstrip("I") or g[:1] for g in gens]          # mixed lengths: shorter members are right-padded
+        m = max(len(g) for g in gens)
+        out.append(f"present {m + rng.randint(0, 3)} {','.join(gens)}")
+    return out
+
+def present_oracle(line, out):
+    if out.startswith("!"):
+        return f"presentation check raised {out}"
+    views = dict(x.split("=", 1) for x in out.split(" "))
+    ref = views["padded-str-list"]
+    bad = {k: v for k, v in views.items() if v != ref}
+    if bad:
+        k, v = next(iter(bad.items()))
+        return (f"generators {line.split(' ')[2]} expanded to n={line.split(' ')[1]}: handed over as {k} the library reports {v.split('#')[0]} "
+                f"on {v.split('#')[-1]}, as padded text list {ref.split('#')[0]} on {ref.split('#')[-1]}")
+    return None
+
+def assembled_meta(line):
+    """the `meta` command with both collections built from objects assembled through the in-place API"""
+    import pollute, random as _r
+    r = _r.Random("asm:" + line)
+    old = impl_c03.mk
+    impl_c03.mk = lambda gs: impl_c03.PauliStringCollection([pollute.assembled_string(s, r) for s in gs])
+    try:
+        return impl_c03.handle(line)
+    finally:
+        impl_c03.mk = old
+
 def build_streams(rng, tier):
     th = tier == "thorough"
     h = impl_classify.handle
@@ -308,6 +344,10 @@ def build_streams(rng, tier):
         Stream("repeated-calls", reps + [l for l in corpus if l.startswith("repeat ")], impl_c03.handle, oracle=repeat_oracle,
                model=False, tag=lambda l, o: "repeat", nontrivial=lambda l, o: True),
         Stream("classify-correspondence n<=12 (every G and G')", cl, h, **kw),
+        Stream("one-algebra-through-every-constructor-and-argument-type", present_lines(rng, tier), impl_c03.handle, oracle=present_oracle,
+               model=False, tag=lambda l, o: "present:" + ("err" if o.startswith("!") else "ok")),
+        Stream("metamorphic:generators-assembled-through-the-in-place-API", m_small[:: (3 if th else 6)], assembled_meta, batch_oracle=meta_batch_oracle(5 if th else 4),
+               **{k: v for k, v in mkw.items() if k != "shrink"}),
     ]
     streams += sweep_streams(sweep_in, seeds, kw)
     return streams
@@ -360,8 +400,12 @@ def replay(path):
     if not line:
         print(json.dumps(r, indent=1)[:2000]); return 1
     op = line.split(" ")[0]
+    if op == "present":
+        out = impl_c03.handle(line); why = present_oracle(line, out)
+        print("implementation:", out); print("oracle:", why or "holds")
+        return 1 if why else 0
     if op == "meta":
-        out = impl_c03.handle(line); why = meta_batch_oracle(5)([line], [out])[0]
+        out = (assembled_meta if "assembled" in str(r.get("stream", "")) else impl_c03.handle)(line); why = meta_batch_oracle(5)([line], [out])[0]
         print("implementation:", out)
         kind, seed, gs = meta_parts(line)
         for g in (gs, transform(kind, seed, gs)):
